@@ -74,7 +74,7 @@ def _dp(pid, rule, technique, level_text, assumptions, nontrivial):
 _DP_RULE = ("cases = generated DP histories (0..4 peripherals in dense/sparse/Vec storage, all option values, conforming/silent/faulty/mismatching slaves, "
             "lost requests/replies, malformed and unexpected replies, power cycles, user calls between bus events, time advances, fault-free tails), deduplicated; "
             "non-trivial = callbacks executed on the real master (transmit / reply / timeout steps)")
-_DP_NT = ["dp:step:transmit", "dp:step:reply", "dp:step:timeout"]
+_DP_NT = ["dp:step:transmit", "dp:step:reply", "dp:step:timeout"]  # callbacks executed on the real master; history kinds are in dp:history:*
 _DP_ASSUME = ["histories allowed by the FdlApplication contract (C15)", "bytes 0..255, addresses 0..125, max_retry_limit 1..15 (ParametersBuilder bounds)"]
 
 PROPS["C03"] = _dp("C03", _DP_RULE, "phase 1: model + correspondence + executable monitor; one-step theorems",
